@@ -64,6 +64,12 @@ type Config struct {
 
 func hasPrefixAny(s string, ps []string) bool {
 	for _, p := range ps {
+		if strings.HasSuffix(p, "$") { // exact package path
+			if s == p[:len(p)-1] {
+				return true
+			}
+			continue
+		}
 		if s == p || strings.HasPrefix(s, p) {
 			return true
 		}
@@ -133,6 +139,7 @@ type Result struct {
 	Funcs         []string
 	SkippedGo     []string
 	StubsUsed     []string
+	ForeignGlobals []string
 	Samples       []PathSample
 	SampleObligs  []string
 	Wall          time.Duration
@@ -154,6 +161,7 @@ type Explorer struct {
 	funcs   map[string]bool
 	skipGo  map[string]bool
 	stubsUsed map[string]bool
+	foreignGlobals map[string]bool
 	npaths  int
 	stop    bool
 }
@@ -164,6 +172,7 @@ func NewExplorer(prog *ssa.Program, entry *ssa.Function, cfg *Config) *Explorer 
 	x.funcs = map[string]bool{}
 	x.skipGo = map[string]bool{}
 	x.stubsUsed = map[string]bool{}
+	x.foreignGlobals = map[string]bool{}
 	x.res = &Result{Entry: entry.Name(), Aborted: map[string]int{}, Reached: map[string]int{}, AssertSites: map[string]int{}}
 	return x
 }
@@ -196,6 +205,10 @@ func (x *Explorer) Run() *Result {
 		x.res.StubsUsed = append(x.res.StubsUsed, f)
 	}
 	sort.Strings(x.res.StubsUsed)
+	for f := range x.foreignGlobals {
+		x.res.ForeignGlobals = append(x.res.ForeignGlobals, f)
+	}
+	sort.Strings(x.res.ForeignGlobals)
 	x.res.Wall = time.Since(t0)
 	return x.res
 }
@@ -308,7 +321,6 @@ func (x *Explorer) runPath(solver *smt.Solver, prefix []Decision) {
 		if pkg := x.entry.Pkg; pkg != nil {
 			in.initPackageGlobals(pkg)
 			if !in.inited[pkg] && x.cfg.shouldInit(pkg.Pkg.Path()) {
-				in.inited[pkg] = true
 				in.call(nil, token.NoPos, pkg.Func("init"), nil)
 			}
 		}
